@@ -78,7 +78,7 @@ TOUCHED = {
     'rename_attr': ['O_ATTR'], 'retype_attr': ['O_ATTR', 'S_DT', 'S_UDT'], 'add_attr': ['O_ATTR', 'O_BATTR', 'O_NBATTR'],
     'set_derived': ['O_BATTR', 'O_NBATTR', 'O_DBATTR', 'O_ATTR'], 'enum_add': ['S_ENUM'], 'enum_move': ['S_ENUM'],
     'row_move': ['S_ENUM'], 'add_udt': ['S_DT', 'S_UDT'], 'move_elem': ['O_OBJ', 'EP_PKG', 'C_C', 'S_DT'],
-    'rename_class': ['O_OBJ'], 'rename_comp': ['C_C'], 'add_struct': ['S_DT', 'S_SDT', 'S_MBR'],
+    'rename_class': ['O_OBJ'], 'renumber_class': ['O_OBJ'], 'rename_comp': ['C_C'], 'add_struct': ['S_DT', 'S_SDT', 'S_MBR'],
 }
 # (base, palette level, edit depth, main() up to depth, reversed file up to depth, permutations: max group in single-edit
 #  states; 0 = initial state only, None = none) -- cheapest stage first
@@ -162,6 +162,10 @@ class XsdModel(bp.EditModel):
             for kl in P['kl'][:k]:
                 if kl not in [x.kl for x in d.classes]:
                     ops.append(['rename_class', c.id, kl])
+            # (round 12, C20-21) the number of another class: class numbers need not be unique (each package numbers from 1)
+            others = [x for x in d.classes if x.id != c.id and x.numb != c.numb]
+            if others and [x.numb for x in d.classes].count(c.numb) == 1 and not self.lean:
+                ops.append(['renumber_class', c.id, others[0].numb])
         predefined = bp.predefined_types()
         for t in sorted(d.types.values(), key=lambda t: t.id):
             if t.id in predefined:
@@ -293,6 +297,8 @@ def allowed_change(op, dp, dc):
     elif name == 'rename_class':
         out.add(('class', dp.cls(op[1]).kl))
         out.add(('class', dc.cls(op[1]).kl))
+    elif name == 'renumber_class':
+        pass                    # the number of a class shows nowhere in the schema
     elif name == 'rename_comp':
         out.add(('component',))
     return out
